@@ -319,8 +319,28 @@ func (w *W) safe(o Oracle, input string) (res Res) {
 	return o(input)
 }
 
+// Scratch is the directory for files a run needs while it runs. A run against a build overlay gets one of its own, so
+// that it cannot disturb a concurrent run of the same check against the plain tree (reference files, cursor files).
+func Scratch() string {
+	if os.Getenv("VERIF_OVERLAY") != "" {
+		return filepath.Join(Root, ".scratch", "overlay-run", "scratch")
+	}
+	return filepath.Join(Root, ".scratch")
+}
+
+// runTag separates the cursor files of two runs of the same check that happen to run at the same time (the parent's
+// pid, inherited by its workers through the environment).
+var runTag = func() string {
+	if t := os.Getenv("VERIF_RUN_TAG"); t != "" {
+		return t
+	}
+	t := fmt.Sprint(os.Getpid())
+	os.Setenv("VERIF_RUN_TAG", t)
+	return t
+}()
+
 func curPath(id string, shard int) string {
-	return filepath.Join(Root, ".scratch", fmt.Sprintf("%s.w%d.cur", id, shard))
+	return filepath.Join(Scratch(), fmt.Sprintf("%s.%s.w%d.cur", id, runTag, shard))
 }
 
 const curSize = 1 << 20
@@ -329,7 +349,7 @@ const curSize = 1 << 20
 func RunWorker(c *Check, tier string, shard, n int, seed int64, deadline time.Time) {
 	w := &W{C: c, Tier: tier, Shard: shard, NShards: n, Seed: seed, deadline: deadline, outcomes: map[uint64]struct{}{}}
 	w.out.Shard = shard
-	os.MkdirAll(filepath.Join(Root, ".scratch"), 0o755)
+	os.MkdirAll(Scratch(), 0o755)
 	if f, err := os.OpenFile(curPath(c.ID, shard), os.O_RDWR|os.O_CREATE|os.O_TRUNC, 0o644); err == nil {
 		f.Truncate(curSize)
 		if m, err := syscall.Mmap(int(f.Fd()), 0, curSize, syscall.PROT_READ|syscall.PROT_WRITE, syscall.MAP_SHARED); err == nil {
@@ -691,7 +711,7 @@ func RunParent(c *Check, tier string) int {
 	for _, p := range plist {
 		fmt.Printf("  phase %-28v complete=%v evals=%v\n", p["phase"], p["complete"], p["evaluations"])
 	}
-	os.RemoveAll(filepath.Join(Root, ".scratch", c.ID))
+	os.RemoveAll(filepath.Join(Scratch(), c.ID))
 	for i := 0; i < n; i++ {
 		os.Remove(curPath(c.ID, i))
 	}
